@@ -507,12 +507,17 @@ class Gen:
         x = r.random()
         if x < 0.3:
             arg = self.typed_path([IDREF, IDREF2])[1] if r.random() < 0.75 else self.named_path(d, cur)
-            return ("fn", r.choice(["derived-from", "derived-from-or-self"]), [arg, self.ident_lit() if r.random() < 0.93 else self.expr("str", d, cur)])
+            idl = self.ident_lit() if r.random() < 0.93 else self.expr("str", d, cur)
+            own = [v for (p, v) in self.vals if p and p[-1][1] in ("idr", "idl")]
+            if own and r.random() < 0.35:      # the identity a node of the tree holds: derived-from is irreflexive, -or-self is not
+                v = r.choice(own)
+                idl = ("lit", v if ":" in v else "xpa:" + v)
+            return ("fn", r.choice(["derived-from", "derived-from-or-self"]), [arg, idl])
         if x < 0.5:
             a = self.expr("str", d, cur) if r.random() < 0.6 else self.typed_path()[1]
             return ("fn", "re-match", [a, ("lit", r.choice(RE_POOL))])
         if x < 0.9:
-            t, p = self.typed_path()
+            t, p = self.typed_path([r.choice([INT, DEC, BITS, IDREF, IDREF2, U8, LREFI, DEC, BITS])])
             op = r.choice(["eq", "eq", "eq", "ne", "lt", "ge"])
             lit = ("lit", self.noncanon_of(t))
             if "'" in lit[1] and '"' in lit[1]: lit = ("lit", "05")
